@@ -18,6 +18,29 @@ func (in *Interp) noteAlloc(n *Term) {
 
 func (in *Interp) fpBinop(op token.Token, x, y *Term) Value {
 	tb := in.tb
+	// Duration.Seconds() compared with zero: decided on the integer duration, so
+	// no floating point reaches the solver.
+	if x.Op == ORaw && x.N == "dur.seconds" && y.Op == OFPConst && (y.V == 0 || y.V == 1<<63) {
+		d := x.A[0]
+		z := tb.Const(d.S.W, 0)
+		switch op {
+		case token.EQL:
+			return tb.Eq(d, z)
+		case token.NEQ:
+			return tb.Ne(d, z)
+		case token.LSS:
+			return tb.SLt(d, z)
+		case token.GTR:
+			return tb.SLt(z, d)
+		case token.LEQ:
+			return tb.SLe(d, z)
+		case token.GEQ:
+			return tb.SLe(z, d)
+		}
+	}
+	if (x.Op == ORaw && x.N == "dur.seconds") || (y.Op == ORaw && y.N == "dur.seconds") {
+		panic("Duration.Seconds() used other than in a comparison with zero")
+	}
 	switch op {
 	case token.ADD:
 		return tb.Raw("fp.add RNE", SFP, x, y)
@@ -57,32 +80,66 @@ func (in *Interp) digitsOf(t *Term, signed bool) StrV {
 	if s, ok := in.digitCache[t]; ok {
 		return s
 	}
-	name := fmt.Sprintf("digits_t%d", t.ID)
-	arr := tb.Sym(name, SArr)
-	ln := tb.Sym(name+".len", BV(64))
-	in.addConstraint(tb.And(tb.SLe(tb.Int(1), ln), tb.SLe(ln, tb.Int(20))))
-	s := StrV{Mem: symMem(arr), Off: tb.Int(0), Len: ln, Max: 20}
-	// characters are digits or a leading '-', never the separators cedar uses
+	// exact decimal rendering for |t| < 10^18: digit variables d0..d17 with
+	// mag == sum d_i * 10^i, the length from comparisons with powers of ten
+	w := t.S.W
+	t64 := t
+	if w < 64 {
+		if signed {
+			t64 = tb.SExt(64, t)
+		} else {
+			t64 = tb.ZExt(64, t)
+		}
+	}
+	neg := tb.False
+	mag := t64
+	if signed {
+		neg = tb.SLt(t64, tb.Int(0))
+		mag = tb.Ite(neg, tb.Neg(t64), t64)
+	}
+	const nd = 18
+	lim := uint64(1000000000000000000)
+	in.addConstraint(tb.ULt(mag, tb.Const(64, lim)))
+	in.noteAssumption("integers rendered in decimal (%d, Itoa) are below 10^18 in magnitude")
+	name := fmt.Sprintf("dig_t%d", t.ID)
+	sum := tb.Int(0)
+	digs := make([]*Term, nd)
+	pow := uint64(1)
 	cs := []*Term{}
-	for i := 0; i < 20; i++ {
-		b := tb.Select(arr, tb.Int(int64(i)))
-		dig := tb.And(tb.ULe(tb.Const(8, '0'), b), tb.ULe(b, tb.Const(8, '9')))
-		if i == 0 && signed {
-			dig = tb.Or(dig, tb.Eq(b, tb.Const(8, '-')))
-		}
-		cs = append(cs, tb.Or(tb.SLe(ln, tb.Int(int64(i))), dig))
+	for i := 0; i < nd; i++ {
+		d := tb.Sym(fmt.Sprintf("%s_%d", name, i), BV(8))
+		digs[i] = d
+		cs = append(cs, tb.ULe(d, tb.Const(8, 9)))
+		sum = tb.Add(sum, tb.Mul(tb.ZExt(64, d), tb.Const(64, pow)))
+		pow *= 10
 	}
+	cs = append(cs, tb.Eq(sum, mag))
 	in.addConstraint(tb.And(cs...))
-	// injectivity w.r.t. earlier digit strings
-	for _, ot := range in.digitList {
-		if ot.S != t.S {
-			continue
-		}
-		in.addConstraint(tb.Or(tb.Eq(ot, t), tb.Not(in.strEq(in.digitCache[ot], s))))
+	// number of digits
+	nl := tb.Int(1)
+	pow = 10
+	for i := 1; i < nd; i++ {
+		nl = tb.Add(nl, tb.Ite(tb.ULe(tb.Const(64, pow), mag), tb.Int(1), tb.Int(0)))
+		pow *= 10
 	}
+	signLen := tb.Ite(neg, tb.Int(1), tb.Int(0))
+	total := tb.Add(nl, signLen)
+	m := zeroMem
+	for j := 0; j <= nd; j++ {
+		// byte at position j: '-' if neg && j==0, else digit index nl-1-(j-signLen)
+		idx := tb.Sub(tb.Sub(nl, tb.Int(1)), tb.Sub(tb.Int(int64(j)), signLen))
+		b := tb.Const(8, '0')
+		for i := nd - 1; i >= 0; i-- {
+			b = tb.Ite(tb.Eq(idx, tb.Int(int64(i))), tb.Add(digs[i], tb.Const(8, '0')), b)
+		}
+		if j == 0 {
+			b = tb.Ite(neg, tb.Const(8, '-'), b)
+		}
+		m = in.memStore(m, tb.Int(int64(j)), b)
+	}
+	s := StrV{Mem: m, Off: tb.Int(0), Len: total, Max: nd + 1}
 	in.digitCache[t] = s
 	in.digitList = append(in.digitList, t)
-	in.noteAssumption("decimal rendering of a symbolic integer is an uninterpreted injective digit string")
 	return s
 }
 
